@@ -119,12 +119,12 @@ theorem acts_already (cfg : Cfg) (rec : Rec) (hal : AlOK cfg rec) (fwd : Bool) (
           have h1 : AlreadyOK cfg.db s1.already := hal _ _ _ _ _ _ _ _ _ ha (by rw [hr]; rfl)
           split at h
           · simp [Res.st?] at h; subst h; exact h1
-          · exact ih ⟨s.env, s.aliases, s.unaliased, s1.already⟩ s' h1 h
+          · exact ih ⟨s.env, s.aliases, s.unaliased, s1.already, s1.cache⟩ s' h1 h
         · rename_i s1 hr
           have h1 : AlreadyOK cfg.db s1.already := hal _ _ _ _ _ _ _ _ _ ha (by rw [hr]; rfl)
           split at h
           · simp [Res.st?] at h; subst h; exact h1
-          · exact ih ⟨s.env, s.aliases, s.unaliased, s1.already⟩ s' h1 h
+          · exact ih ⟨s.env, s.aliases, s.unaliased, s1.already, s1.cache⟩ s' h1 h
     · have hnd : ∀ n o j v x t kl, a ≠ .dep n o j v x t kl := fun n o j v x t kl e => hdep ⟨n, o, j, v, x, t, kl, e⟩
       rw [acts_cons_nondep rec cfg fwd depth noRec vro d a rest s hnd] at h
       exact ih _ s' (by simpa using ha) h
@@ -155,12 +155,12 @@ theorem acts_frame (cfg : Cfg) (rank : Name → Nat) (rec : Rec) (hrec : RecOK c
           have h1 : AlreadyOK cfg.db s1.already := hrec.already _ _ _ _ _ _ _ _ _ ha (by rw [hr]; rfl)
           split at h
           · cases h
-          · exact ih hl' ⟨s.env, s.aliases, s.unaliased, s1.already⟩ s' h1 h m hm
+          · exact ih hl' ⟨s.env, s.aliases, s.unaliased, s1.already, s1.cache⟩ s' h1 h m hm
         · rename_i s1 hr
           have h1 : AlreadyOK cfg.db s1.already := hrec.already _ _ _ _ _ _ _ _ _ ha (by rw [hr]; rfl)
           split at h
           · cases h
-          · exact ih hl' ⟨s.env, s.aliases, s.unaliased, s1.already⟩ s' h1 h m hm
+          · exact ih hl' ⟨s.env, s.aliases, s.unaliased, s1.already, s1.cache⟩ s' h1 h m hm
     · have hnd : ∀ n o j v x t kl, a ≠ .dep n o j v x t kl := fun n o j v x t kl e => hdep ⟨n, o, j, v, x, t, kl, e⟩
       rw [acts_cons_nondep rec cfg fwd depth noRec vro d a rest s hnd] at h
       rw [ih hl' _ s' (by simpa using ha) h m hm, apply_rec?]
@@ -218,12 +218,12 @@ theorem acts_true_spec (cfg : Cfg) (rank : Name → Nat) (rec : Rec) (hrec : Rec
           have h1 : AlreadyOK cfg.db s1.already := hrec.already _ _ _ _ _ _ _ _ _ ha (by rw [hr1]; rfl)
           split at h
           · cases h
-          · exact ih hl' hc' ⟨s.env, s.aliases, s.unaliased, s1.already⟩ s' h1 hw hn hr h
+          · exact ih hl' hc' ⟨s.env, s.aliases, s.unaliased, s1.already, s1.cache⟩ s' h1 hw hn hr h
         · rename_i s1 hr1
           have h1 : AlreadyOK cfg.db s1.already := hrec.already _ _ _ _ _ _ _ _ _ ha (by rw [hr1]; rfl)
           split at h
           · cases h
-          · exact ih hl' hc' ⟨s.env, s.aliases, s.unaliased, s1.already⟩ s' h1 hw hn hr h
+          · exact ih hl' hc' ⟨s.env, s.aliases, s.unaliased, s1.already, s1.cache⟩ s' h1 hw hn hr h
     · have hnd : ∀ n o j v x t kl, a ≠ .dep n o j v x t kl := fun n o j v x t kl e => hdep ⟨n, o, j, v, x, t, kl, e⟩
       rw [acts_cons_nondep rec cfg true depth noRec vro d a rest s hnd] at h
       obtain ⟨hn1, hw1⟩ := apply_true_spec cfg d.prod a s (hc a (by simp)) hr hw hn
